@@ -36,7 +36,8 @@
      C16:sample                the sample names a command the requester does not hold, or is too long
      C16:no-progress[...]      a closed session delivered no command the requester lacked although the
                                responder has one; sub-classified (DESIGN 7.6, SyncAbs exemptions):
-          :req-heads>100                         requester has more heads than the sample limit
+          :req-heads>100                         the requester's frontier (maximal commands of what it holds,
+                                                 committed or in the open transaction) exceeds the sample limit
           C16:dup-only-session:req-unknown-sample>=100   full sample, nothing of it known to the responder,
                                                  only duplicates delivered
           C16:dup-only-session:>=100-uncovered-duplicates   the requester sampled all its heads, yet >= 100 commands
@@ -157,7 +158,11 @@ NoProgressKey(ev) ==
       located == sess.sample \cap have[resp]
       covered == UpClosure(located, located)
       dupOnly == sess.recv # {} /\ sess.recv \subseteq Holds(req)
-  IN IF sess.heads > 100 THEN "C16:no-progress:req-heads>100"
+      \* the frontier the requester can advertise: maximal commands of what it holds (committed or
+      \* in the open transaction)
+      holds == Holds(req)
+      frontier == holds \ UNION {par[c] : c \in holds}
+  IN IF Cardinality(frontier) > 100 THEN "C16:no-progress:req-heads>100"
      ELSE IF dupOnly /\ sess.nsample >= 100 /\ located = {} THEN "C16:dup-only-session:req-unknown-sample>=100"
      ELSE IF dupOnly /\ Cardinality(sess.recv) >= 100 /\ ev.inseg_ok
                /\ sess.reqheads \subseteq UpClosure(sess.sample, sess.sample)
